@@ -12,6 +12,13 @@ the outcomes that actually occurred are then forced on the rewritten circuit, wh
 same stabilizer state (canonical signed form, `tabutil.stab_canon`); small circuits also through the density-matrix
 backend.
 
+Part A' (topological order; direct oracle of the Lean theorem `compiled_tableau_independent_of_topological_order` on the real
+compiler).  The real `StabilizerCompiler.compile` is run on a duck-typed view of the circuit whose `sequence()` follows a
+*random linear extension* of the DAG (random Kahn order) instead of the order `networkx.topological_sort` returns; the
+outcomes that occurred in the default order are forced operation by operation; the recorded outcomes and the final
+stabilizer state (canonical signed form) must be the same.  The model must accept the order as a linear extension
+(`assign_noise` of the model rejects anything else).  Testing only (the theorem is about the model `stabRun`).
+
 Part B (aliasing; testing by nature — a functional model cannot exhibit Python object aliasing).  Random interleavings of
 library calls on shared objects (compile with both backends and all determinism modes, every metric's `evaluate`,
 `TimeReversedSolver`, `assign_noise`, `MonteCarloNoise`, `copy`, the rewrites on copies, `compare`, `to_openqasm`,
@@ -19,6 +26,7 @@ depth queries); before/after fingerprints of every live input: openQASM text, wi
 noise descriptors, compiled state (both backends when small), target representation type and canonical data.
 """
 import copy
+import functools
 import itertools
 import time
 import warnings
@@ -322,6 +330,87 @@ def check_rewrites(ctx, res, drv, circ, tag, with_dm):
         res.sample(f"{cmd} {enc} -> {r['_raw']}"[:590])
 
 
+# ------------------------------------------------------------------------------------------------------------ part A'
+class Reordered:
+    """duck-typed view of a circuit whose `sequence()` follows a given order of all DAG nodes (everything else is delegated)"""
+
+    def __init__(self, circ, order):
+        self._c = circ
+        self._order = list(order)
+
+    def __getattr__(self, name):
+        return getattr(self._c, name)
+
+    def sequence(self, unwrapped=False):
+        op_list = [self._c.dag.nodes[n]["op"] for n in self._order]
+        if not unwrapped:
+            return op_list
+        return functools.reduce(lambda x, y: x + y.unwrap(), op_list, [])
+
+
+def random_linear_extension(rng, dag):
+    """random Kahn order of a (multi)digraph; nodes are visited in a reproducible base order"""
+    indeg = {n: 0 for n in dag.nodes}
+    for u, v in dag.edges():
+        indeg[v] += 1
+    ready = [n for n in dag.nodes if indeg[n] == 0]
+    out = []
+    while ready:
+        n = ready.pop(rng.randrange(len(ready)))
+        out.append(n)
+        for _, v in dag.out_edges(n):
+            indeg[v] -= 1
+            if indeg[v] == 0:
+                ready.append(v)
+    return out
+
+
+def check_orders(ctx, res, drv, circ, tag, n_orders=2):
+    snap = wu.snapshot(circ)
+    if len(snap["nodes"]) < 2:
+        return
+    enc = wu.encode(snap)
+    default = [n for n in nx.topological_sort(circ.dag)]
+    default_ops = [n for n in default if not isinstance(n, str)]
+    m = n_measuring(circ)
+    for _ in range(n_orders):
+        order = random_linear_extension(ctx.rng, circ.dag)
+        op_order = [n for n in order if not isinstance(n, str)]
+        inp = {"circuit": enc, "order": ",".join(map(str, op_order)), "gen": tag}
+        res.evaluations += 1
+        res.branch(["order:same" if op_order == default_ops else "order:different"])
+        if op_order != default_ops:
+            res.nontrivial(wu.shape(snap), "order", tuple(op_order))
+        # the model accepts the order as a linear extension (and re-adding along it keeps flat)
+        r, rf0 = drv.batch([f"wire.assign seq={','.join(map(str, op_order))} {enc}", f"wire.flat {enc}"])
+        if r["_status"] != "ok":
+            res.exact_break("isLinearExtension", input=inp, impl="a Kahn order of circ.dag", model=r["_raw"][:300])
+            continue
+        view = Reordered(circ, order)
+        scripts = [({}, 0), ({}, 1)]
+        if m:
+            got0, _ = run_sem(circ, {}, 0, "stab")
+            keys = sorted(got0)
+            for _k in range(2):
+                scripts.append(({k: ctx.rng.randrange(2) for k in keys}, 0))
+        for want, dflt in scripts:
+            try:
+                got, st = run_sem(circ, want, dflt, "stab")
+                got2, st2 = run_sem(view, got, dflt, "stab")
+            except Exception as e:  # noqa: BLE001
+                res.violation("order:raised", "compile along any topological order returns the state", input=inp,
+                              impl=f"{type(e).__name__}: {e}"[:300])
+                break
+            if got2 != got:
+                res.violation("order:outcomes-changed", "the same outcomes are possible along every topological order", input=inp,
+                              impl=f"forcing {sorted(got.items())} gives {sorted(got2.items())}")
+                break
+            if st != st2:
+                res.violation("order:state-changed", "the compiled state does not depend on the topological order", input=inp,
+                              impl=f"different final state for outcomes {sorted(got.items())}")
+                break
+
+
 # ------------------------------------------------------------------------------------------------------------ part B
 def noise_desc(x):
     if isinstance(x, (list, tuple)):
@@ -583,8 +672,10 @@ def alias_world(ctx, res, tag_seed):
 # ------------------------------------------------------------------------------------------------------------ entry
 def run(ctx):
     res = Result()
-    res.rule = ("one evaluation = one rewrite applied to one circuit, or one library call inside an interleaving; non-trivial "
-                "rewrites: the circuit contains at least one operation; distinct by (circuit shape, rewrite) resp. (call history, circuit shape)")
+    res.rule = ("one evaluation = one rewrite applied to one circuit, one compile along a random linear extension, or one library "
+                "call inside an interleaving; non-trivial rewrites: the circuit contains at least one operation; non-trivial orders: "
+                "the order differs from the default one; distinct by (circuit shape, rewrite) resp. (circuit shape, order) resp. "
+                "(call history, circuit shape)")
     drv = Driver()
     t0 = time.time()
     try:
@@ -600,6 +691,8 @@ def run(ctx):
                 circ = gen_circuit(ctx.rng, allow_mz=mz)
             res.count("sizes", f"ops<={5 * ((len(wu.snapshot(circ)['nodes']) + 4) // 5)}")
             check_rewrites(ctx, res, drv, circ, tag, with_dm=circ.n_quantum <= 4 and ctx.rng.random() < 0.4)
+            if ctx.rng.random() < 0.5:
+                check_orders(ctx, res, drv, circ, tag)
             if time.time() - t0 > budget_a or len(res.violations) > 20:
                 break
         # exhaustive: all circuits of two operations over a small alphabet on (1 emitter, 1 photon)
@@ -677,6 +770,20 @@ def replay(ctx, data):
                 check_rewrites(ctx, res, drv, circ, "replay", with_dm=circ.n_quantum <= 4)
             finally:
                 REWRITES = old
+        finally:
+            drv.close()
+        for vv in res.violations:
+            print("replay:", vv["key"], vv.get("impl"))
+        return not res.violations
+    if "order" in inp and "rewrite" not in inp:
+        toks = dict(t.split("=", 1) for t in inp["circuit"].split(" "))
+        circ = wu.build(wu.decode(toks))
+        drv = Driver()
+        try:
+            for _ in range(40):
+                check_orders(ctx, res, drv, circ, "replay", n_orders=4)
+                if res.violations:
+                    break
         finally:
             drv.close()
         for vv in res.violations:
